@@ -991,4 +991,495 @@ theorem reconcile_synced (mode : Mode) (path : Path) (a al be : Option Entry) :
     subst e1 e2
     simp [shallowEq_refl] at h4
 
+
+/-! ## One-way modes install exactly alpha's synchronizable content -/
+
+theorem handleOneWaySafe_new (path : Path) (a al be : Option Entry) :
+    ∀ c ∈ (handleOneWaySafe path a al be).beta, c.path = path ∧ c.new = osync al := by
+  unfold handleOneWaySafe
+  simp only []
+  repeat' split
+  all_goals (intro c hc; simp [Plan.conflict, Plan.betaChange, Plan.ancChange] at hc; try (subst hc; exact ⟨rfl, rfl⟩))
+
+theorem handleOneWayReplica_new (path : Path) (a al be : Option Entry) :
+    ∀ c ∈ (handleOneWayReplica path a al be).beta, c.path = path ∧ c.new = osync al := by
+  unfold handleOneWayReplica
+  simp only []
+  repeat' split
+  all_goals (intro c hc; simp [Plan.conflict, Plan.betaChange] at hc; try (subst hc; exact ⟨rfl, rfl⟩))
+
+theorem reconcile_oneWay_new (mode : Mode) (hm : mode = .oneWaySafe ∨ mode = .oneWayReplica)
+    (path : Path) (a al be : Option Entry) :
+    ∀ c ∈ (reconcile mode path a al be).beta, ∃ rel, c.path = path ++ rel ∧ c.new = osync (getPath al rel) := by
+  fun_induction reconcile mode path a al be with
+  | case1 => exact forall_mem_of_eq_nil rfl
+  | case2 => exact forall_mem_of_eq_nil rfl
+  | case3 => exact forall_mem_of_eq_nil rfl
+  | case4 => exact forall_mem_of_eq_nil rfl
+  | case5 path ancestor alpha beta h1 h2 h3 h4 here anc' ih =>
+    intro c hc
+    have hh2 : here.beta = [] := by simp only [here]; split <;> rfl
+    simp only [Plan.append_beta, hh2, List.nil_append, Plan.concat_beta, List.flatMap_map,
+      List.mem_flatMap, List.mem_attach, true_and] at hc
+    obtain ⟨n, hn⟩ := hc
+    obtain ⟨rel, hp, hs⟩ := ih n c hn
+    exact ⟨n.1 :: rel, by simp [hp], hs⟩
+  | case6 path ancestor alpha beta h1 h2 h3 h4 =>
+    intro c hc
+    unfold handleDisagreement at hc
+    rcases hm with rfl | rfl
+    · obtain ⟨h1, h2⟩ := handleOneWaySafe_new _ _ _ _ c hc
+      exact ⟨[], by simp [h1], h2⟩
+    · obtain ⟨h1, h2⟩ := handleOneWayReplica_new _ _ _ _ c hc
+      exact ⟨[], by simp [h1], h2⟩
+
+
+/-! ## Conflicts name at least one change on alpha (valid trees, no phantom directories) -/
+
+/-- Scalar fields at the root of the synchronizable part of a valid tree. -/
+theorem pget_osync_root {e : Option Entry} (hv : Valid e) :
+    pget (osync e) [] = match e with
+      | none => none
+      | some x => if x.kind.synchronizable then some x.props else none := by
+  cases e with
+  | none => rfl
+  | some x =>
+    cases x with
+    | mk p cs =>
+      have hnode := Entry.synchronizable_node hv.1 hv.2
+      cases hs : p.kind.synchronizable with
+      | false => simp [osync, hnode.1 hs, Entry.kind, Entry.props, hs]
+      | true =>
+        obtain ⟨cs', h1, _⟩ := hnode.2 hs
+        simp [osync, h1, pget, getPath, Entry.kind, Entry.props, hs]
+
+/-- The situation in which `reconcile` calls a disagreement handler. -/
+structure Disagree (al be : Option Entry) : Prop where
+  alphaOk : isKind al .problematic = false
+  betaOk : isKind be .problematic = false
+  notBothAbsent : ((al.isNone || isKind al .untracked) && (be.isNone || isKind be .untracked)) = false
+  differ : shallowEq al be = false
+
+theorem kind_cases {p : Props} {cs : Contents} (hv : Valid (some (.mk p cs)))
+    (h1 : p.kind ≠ .problematic) (h2 : p.kind ≠ .phantom) :
+    p.kind.synchronizable = true ∨ p.kind = .untracked := by
+  have := hv.2
+  simp only [oensureValid, Entry.ensureValid] at this
+  cases hk : p.kind <;> simp_all [Kind.synchronizable]
+
+/-- With valid, phantom-free endpoints that disagree, the synchronizable
+parts cannot both agree with the ancestor. -/
+theorem not_both_unmodified {a al be : Option Entry} (hα : Valid al) (hβ : Valid be)
+    (hpα : isKind al .phantom = false) (hpβ : isKind be .phantom = false) (hd : Disagree al be)
+    (h1 : SameTree a (osync al)) (h2 : SameTree a (osync be)) : False := by
+  have hroot : pget (osync al) [] = pget (osync be) [] := (h1 []).symm.trans (h2 [])
+  rw [pget_osync_root hα, pget_osync_root hβ] at hroot
+  obtain ⟨o1, o2, o3, o4⟩ := hd
+  cases al with
+  | none =>
+    cases be with
+    | none => simp at o3
+    | some y =>
+      cases y with
+      | mk q ds =>
+        have hk := kind_cases hβ (by simpa [isKind, Entry.kind, Entry.props] using o2)
+          (by simpa [isKind, Entry.kind, Entry.props] using hpβ)
+        rcases hk with hk | hk
+        · simp [Entry.kind, Entry.props, hk] at hroot
+        · simp [isKind, Entry.kind, Entry.props, hk] at o3
+  | some x =>
+    cases x with
+    | mk p cs =>
+      have hkα := kind_cases hα (by simpa [isKind, Entry.kind, Entry.props] using o1)
+        (by simpa [isKind, Entry.kind, Entry.props] using hpα)
+      cases be with
+      | none =>
+        rcases hkα with hk | hk
+        · simp [Entry.kind, Entry.props, hk] at hroot
+        · simp [isKind, Entry.kind, Entry.props, hk] at o3
+      | some y =>
+        cases y with
+        | mk q ds =>
+          have hkβ := kind_cases hβ (by simpa [isKind, Entry.kind, Entry.props] using o2)
+            (by simpa [isKind, Entry.kind, Entry.props] using hpβ)
+          rcases hkα with hk | hk <;> rcases hkβ with hk' | hk'
+          · simp only [Entry.kind, Entry.props, hk, hk', ↓reduceIte, Option.some.injEq] at hroot
+            simp [shallowEq, Entry.props, hroot] at o4
+          · have hq : q.kind.synchronizable = false := by rw [hk']; rfl
+            simp [Entry.kind, Entry.props, hk, hq] at hroot
+          · have hp : p.kind.synchronizable = false := by rw [hk]; rfl
+            simp [Entry.kind, Entry.props, hk', hp] at hroot
+          · simp [isKind, Entry.kind, Entry.props, hk, hk'] at o3
+
+theorem ne_nil_of_and_left {α β} {l : List α} {m : List β} (h : ¬ (l.isEmpty && m.isEmpty) = true)
+    (hm : m.isEmpty = true) : l ≠ [] := by
+  intro hl; subst hl; simp [hm] at h
+
+theorem handleBidirectional_conflict_alpha (mode : Mode) (path : Path) (a al be : Option Entry)
+    (hα : Valid al) (hβ : Valid be) (hpα : isKind al .phantom = false) (hpβ : isKind be .phantom = false)
+    (hd : Disagree al be) :
+    ∀ c ∈ (handleBidirectional mode path a al be).conflicts, c.alphaChanges ≠ [] := by
+  have key : (diff path a (osync be)).isEmpty = true → diff path a (osync al) ≠ [] := by
+    intro hb hnil
+    exact not_both_unmodified hα hβ hpα hpβ hd (sameTree_of_diff_nil path _ _ hnil)
+      (same_of_isEmpty hb)
+  unfold handleBidirectional
+  simp only []
+  repeat' split
+  all_goals
+    (intro c hc
+     simp [Plan.conflict, Plan.alphaChange, Plan.betaChange] at hc
+     try (subst hc
+          first
+           | exact ne_nil_of_not_isEmpty ‹_›
+           | exact ne_nil_of_isEmpty_false ‹_›
+           | exact ne_nil_of_and_left ‹_› ‹_›
+           | exact key ‹_›))
+
+
+theorem onoPhantom_lookup {e : Option Entry} (h : onoPhantom e = true) (n : Name) :
+    onoPhantom (lookup n (contents e)) = true := by
+  cases e with
+  | none => rfl
+  | some e =>
+    cases e with
+    | mk p cs =>
+      simp only [onoPhantom, Entry.noPhantom, Bool.and_eq_true] at h
+      simp only [contents, Entry.children]
+      have : ∀ cs : Contents, Entry.noPhantomL cs = true → onoPhantom (lookup n cs) = true := by
+        intro cs
+        induction cs with
+        | nil => intro _; rfl
+        | cons hd t ih =>
+          obtain ⟨m, c⟩ := hd
+          intro hh
+          simp only [Entry.noPhantomL, Bool.and_eq_true] at hh
+          simp only [lookup]
+          split
+          · exact hh.1
+          · exact ih hh.2
+      exact this cs h.2
+
+theorem isKind_phantom_of_noPhantom {e : Option Entry} (h : onoPhantom e = true) :
+    isKind e .phantom = false := by
+  cases e with
+  | none => rfl
+  | some e =>
+    cases e with
+    | mk p cs =>
+      simp only [onoPhantom, Entry.noPhantom, Bool.and_eq_true, bne_iff_ne, ne_eq] at h
+      simp [isKind, Entry.kind, Entry.props, h.1]
+
+theorem handleOneWay_conflict_alpha (path : Path) (a alpha beta : Option Entry) :
+    (∀ c ∈ (handleOneWaySafe path a alpha beta).conflicts, c.alphaChanges ≠ []) ∧
+    (∀ c ∈ (handleOneWayReplica path a alpha beta).conflicts, c.alphaChanges ≠ []) := by
+  constructor
+  · unfold handleOneWaySafe
+    simp only []
+    repeat' split
+    all_goals (intro c hc; simp [Plan.conflict, Plan.betaChange, Plan.ancChange] at hc; try (subst hc; simp))
+  · unfold handleOneWayReplica
+    simp only []
+    repeat' split
+    all_goals (intro c hc; simp [Plan.conflict, Plan.betaChange] at hc; try (subst hc; simp))
+
+/-- Every conflict names at least one change on alpha, for valid endpoint
+trees without phantom directories, in every mode. -/
+theorem reconcile_conflict_alpha (mode : Mode) (path : Path) (a al be : Option Entry) :
+    Valid al → Valid be → onoPhantom al = true → onoPhantom be = true →
+    ∀ c ∈ (reconcile mode path a al be).conflicts, c.alphaChanges ≠ [] := by
+  fun_induction reconcile mode path a al be with
+  | case1 => intro _ _ _ _; exact forall_mem_of_eq_nil rfl
+  | case2 => intro _ _ _ _; exact forall_mem_of_eq_nil rfl
+  | case3 => intro _ _ _ _; exact forall_mem_of_eq_nil rfl
+  | case4 => intro _ _ _ _; exact forall_mem_of_eq_nil rfl
+  | case5 path ancestor alpha beta h1 h2 h3 h4 here anc' ih =>
+    intro hα hβ hpα hpβ c hc
+    have hh : here.conflicts = [] := by simp only [here]; split <;> rfl
+    simp only [Plan.append_conflicts, hh, List.nil_append, Plan.concat_conflicts, List.flatMap_map,
+      List.mem_flatMap, List.mem_attach, true_and] at hc
+    obtain ⟨n, hn⟩ := hc
+    exact ih n (hα.lookup n.1) (hβ.lookup n.1) (onoPhantom_lookup hpα n.1) (onoPhantom_lookup hpβ n.1) c hn
+  | case6 path ancestor alpha beta h1 h2 h3 h4 =>
+    intro hα hβ hpα hpβ
+    have hd : Disagree alpha beta :=
+      ⟨Bool.eq_false_iff.mpr h1, Bool.eq_false_iff.mpr h2, Bool.eq_false_iff.mpr h3, Bool.eq_false_iff.mpr h4⟩
+    unfold handleDisagreement
+    cases mode
+    · exact handleBidirectional_conflict_alpha _ _ _ _ _ hα hβ (isKind_phantom_of_noPhantom hpα)
+        (isKind_phantom_of_noPhantom hpβ) hd
+    · exact handleBidirectional_conflict_alpha _ _ _ _ _ hα hβ (isKind_phantom_of_noPhantom hpα)
+        (isKind_phantom_of_noPhantom hpβ) hd
+    · exact (handleOneWay_conflict_alpha _ _ _ _).1
+    · exact (handleOneWay_conflict_alpha _ _ _ _).2
+
+
+/-! ## The ancestor update never fails to resolve a path -/
+
+/-- `p` is the root or its parent exists in `r`. -/
+def ParentExists (r : Option Entry) (p : Path) : Prop := p = [] ∨ (pget r p.dropLast).isSome = true
+
+theorem dropLast_snoc_prefix {path p : Path} {n : Name} (h : (path ++ [n]) <+: p) :
+    path <+: p.dropLast := by
+  obtain ⟨t, rfl⟩ := h
+  cases t with
+  | nil => simp
+  | cons x t =>
+    have : (path ++ [n] ++ x :: t).dropLast = path ++ ([n] ++ (x :: t).dropLast) := by
+      simp [List.dropLast_append_of_ne_nil, List.append_assoc]
+    rw [this]
+    exact List.prefix_append _ _
+
+/-- Changes at pairwise incomparable paths whose parents exist can all be applied. -/
+theorem apply_incomparable_ok (cs : List Change) :
+    ∀ r, List.Pairwise (fun a b : Change => incomparable a.path b.path) cs →
+      (∀ c ∈ cs, ParentExists r c.path) → ∃ r', apply r cs = .ok r' := by
+  induction cs with
+  | nil => intro r _ _; exact ⟨r, rfl⟩
+  | cons c cs ih =>
+    intro r hp hpar
+    rw [List.pairwise_cons] at hp
+    obtain ⟨r1, h1, h1q⟩ := applyChange_spec r c (hpar c (by simp))
+    have hpar1 : ∀ d ∈ cs, ParentExists r1 d.path := by
+      intro d hd
+      rcases hpar d (by simp [hd]) with h | h
+      · exact Or.inl h
+      · right
+        rw [h1q]
+        have hinc := hp.1 d hd
+        have : ¬ c.path <+: d.path.dropLast := fun hpre =>
+          hinc.1 (hpre.trans (List.dropLast_prefix _))
+        simp [this, h]
+    obtain ⟨r', h'⟩ := ih r1 hp.2 hpar1
+    exact ⟨r', by simp [apply, h1, h']⟩
+
+
+/-- Paths of the endpoint changes of a plan. -/
+def Plan.changePaths (p : Plan) : List Path := p.alpha.map (·.path) ++ p.beta.map (·.path)
+
+theorem Plan.changePaths_sublist (p : Plan) : p.changePaths.Sublist p.actionPaths := by
+  simp only [Plan.changePaths, Plan.actionPaths]
+  exact List.sublist_append_left _ _
+
+/-- Deleting at a path whose parent exists. -/
+theorem apply_delete_spec (r : Option Entry) (path : Path) (hpar : ParentExists r path) :
+    ∃ r', apply r [{ path := path }] = .ok r' ∧ ∀ q, ¬ path <+: q → pget r' q = pget r q := by
+  obtain ⟨r', h1, h2⟩ := applyChange_spec r { path := path } hpar
+  exact ⟨r', by simp [apply, h1], fun q hq => by rw [h2]; simp [hq]⟩
+
+theorem anc_children (path : Path) (f : Name → Plan) (xc : Contents) (ns : List Name) (hnd : ns.Nodup)
+    (hunder : ∀ n ∈ ns, ∀ p ∈ (f n).changePaths, (path ++ [n]) <+: p)
+    (ih : ∀ n ∈ ns, ∀ r, (pget r path).isSome = true →
+      (∀ q, pget r (path ++ n :: q) = pget (lookup n xc) q) →
+      ∃ r', apply r (f n).anc = .ok r' ∧ (∀ q, ¬ (path ++ [n]) <+: q → pget r' q = pget r q) ∧
+        (∀ p ∈ (f n).changePaths, ParentExists r' p)) :
+    ∀ r, (pget r path).isSome = true →
+      (∀ n ∈ ns, ∀ q, pget r (path ++ n :: q) = pget (lookup n xc) q) →
+      ∃ r', apply r (ns.flatMap fun n => (f n).anc) = .ok r' ∧
+        (∀ q, (∀ n ∈ ns, ¬ (path ++ [n]) <+: q) → pget r' q = pget r q) ∧
+        (∀ n ∈ ns, ∀ p ∈ (f n).changePaths, ParentExists r' p) := by
+  induction ns with
+  | nil => intro r _ _; exact ⟨r, by simp [apply], fun _ _ => rfl, fun n hn => by cases hn⟩
+  | cons n ns ihns =>
+    intro r hpar hx
+    have hnd' := List.nodup_cons.mp hnd
+    obtain ⟨r1, h1, h1o, h1p⟩ := ih n (by simp) r hpar (hx n (by simp))
+    have hpar1 : (pget r1 path).isSome = true := by
+      rw [h1o path (not_snoc_prefix_self path n)]; exact hpar
+    have hx1 : ∀ m ∈ ns, ∀ q, pget r1 (path ++ m :: q) = pget (lookup m xc) q := by
+      intro m hm q
+      have hne : ¬ n = m := fun h => hnd'.1 (h ▸ hm)
+      have : ¬ (path ++ [n]) <+: (path ++ m :: q) := by
+        rw [List.prefix_append_right_inj]; simp [hne]
+      rw [h1o _ this]
+      exact hx m (by simp [hm]) q
+    obtain ⟨r2, h2, h2o, h2p⟩ := ihns hnd'.2 (fun m hm => hunder m (by simp [hm]))
+      (fun m hm => ih m (by simp [hm])) r1 hpar1 hx1
+    refine ⟨r2, ?_, ?_, ?_⟩
+    · simp only [List.flatMap_cons]
+      rw [apply_append, h1]
+      exact h2
+    · intro q hq
+      rw [h2o q (fun m hm => hq m (by simp [hm])), h1o q (hq n (by simp))]
+    · intro m hm p hp
+      rcases List.mem_cons.mp hm with rfl | hm'
+      · rcases h1p p hp with h | h
+        · exact Or.inl h
+        · right
+          have hpre := hunder m (by simp) p hp
+          have hnot : ∀ k ∈ ns, ¬ (path ++ [k]) <+: p.dropLast := by
+            intro k hk hpk
+            have hne : m ≠ k := fun h => hnd'.1 (h ▸ hk)
+            exact (incomparable_of_children hne hpre (hpk.trans (List.dropLast_prefix p))).1
+              (List.prefix_refl p)
+          rw [h2o _ hnot]
+          exact h
+      · exact h2p m hm' p hp
+
+
+theorem handleDisagreement_anc (mode : Mode) (path : Path) (a al be : Option Entry) :
+    (handleDisagreement mode path a al be).anc = [] ∨
+      (handleDisagreement mode path a al be).anc = [{ path := path }] := by
+  unfold handleDisagreement
+  cases mode
+  · left; unfold handleBidirectional; simp only []; repeat' split
+    all_goals rfl
+  · left; unfold handleBidirectional; simp only []; repeat' split
+    all_goals rfl
+  · unfold handleOneWaySafe; simp only []; repeat' split
+    all_goals first | (left; rfl) | (right; rfl)
+  · left; unfold handleOneWayReplica; simp only []; repeat' split
+    all_goals rfl
+
+theorem handleDisagreement_changePaths (mode : Mode) (path : Path) (a al be : Option Entry) :
+    ∀ p ∈ (handleDisagreement mode path a al be).changePaths, p = path := by
+  intro p hp
+  have hc := handleDisagreement_clean mode path a al be
+  simp only [Plan.changePaths, List.mem_append, List.mem_map] at hp
+  rcases hp with ⟨c, hc1, rfl⟩ | ⟨c, hc1, rfl⟩
+  · exact (hc.1 c hc1).1
+  · exact (hc.2 c hc1).1
+
+theorem reconcile_changePaths_under (mode : Mode) (path : Path) (a al be : Option Entry) :
+    ∀ p ∈ (reconcile mode path a al be).changePaths, path <+: p :=
+  fun p hp => (reconcile_actions mode path a al be).1 p ((Plan.changePaths_sublist _).subset hp)
+
+/-- Applying the ancestor changes of a (sub-)plan to a tree that looks like the
+ancestor at `path` (and in which the parent of `path` exists) succeeds, changes
+nothing outside `path`, and leaves the parent of every planned endpoint change
+in place. -/
+theorem reconcile_anc_spec (mode : Mode) (path : Path) (a al be : Option Entry) :
+    ∀ r, ParentExists r path → (∀ q, pget r (path ++ q) = pget a q) →
+      ∃ r', apply r (reconcile mode path a al be).anc = .ok r' ∧
+        (∀ q, ¬ path <+: q → pget r' q = pget r q) ∧
+        (∀ p ∈ (reconcile mode path a al be).changePaths, ParentExists r' p) := by
+  fun_induction reconcile mode path a al be with
+  | case1 => intro r _ _; exact ⟨r, rfl, fun _ _ => rfl, fun p hp => by cases hp⟩
+  | case2 => intro r _ _; exact ⟨r, rfl, fun _ _ => rfl, fun p hp => by cases hp⟩
+  | case3 path ancestor alpha beta h1 h2 h3 h4 =>
+    intro r hpar _
+    obtain ⟨r', h1, h2⟩ := apply_delete_spec r path hpar
+    exact ⟨r', h1, h2, fun p hp => by cases hp⟩
+  | case4 => intro r _ _; exact ⟨r, rfl, fun _ _ => rfl, fun p hp => by cases hp⟩
+  | case5 path ancestor alpha beta h1 h2 h3 h4 here anc' ih =>
+    intro r hpar hx
+    -- alpha exists at this path
+    have hαsome : ∃ e, alpha = some e := by
+      cases alpha with
+      | some e => exact ⟨e, rfl⟩
+      | none =>
+        cases beta with
+        | none => simp at h3
+        | some b => simp [shallowEq] at h4
+    obtain ⟨ae, rfl⟩ := hαsome
+    -- Step 1: the change at `path` itself (if any).
+    have step1 : ∃ r0, apply r here.anc = .ok r0 ∧ (∀ q, ¬ path <+: q → pget r0 q = pget r q) ∧
+        (pget r0 path).isSome = true ∧
+        (∀ n q, pget r0 (path ++ n :: q) = pget (lookup n (contents anc')) q) := by
+      by_cases hs : shallowEq ancestor (some ae) = true
+      · refine ⟨r, by simp [here, hs, apply], fun _ _ => rfl, ?_, ?_⟩
+        · have := hx []
+          simp only [List.append_nil] at this
+          rw [this]
+          cases ancestor with
+          | none => simp [shallowEq] at hs
+          | some x => simp [pget, getPath]
+        · intro n q
+          have : anc' = ancestor := by simp [anc', ancestorForRecursion, hs]
+          rw [this, hx (n :: q), pget_cons]
+      · obtain ⟨r0, h1, h1q⟩ := applyChange_spec r
+          { path := path, new := ocopy .slim (some ae) } hpar
+        have hanc : anc' = none := by simp [anc', ancestorForRecursion, hs]
+        refine ⟨r0, by simp [here, hs, Plan.ancChange, apply, h1], ?_, ?_, ?_⟩
+        · intro q hq; rw [h1q]; simp [hq]
+        · rw [h1q]; simp [ocopy, pget, getPath]
+        · intro n q
+          rw [h1q, hanc]
+          cases ae with
+          | mk p cs => simp [ocopy, Entry.copy, pget, getPath, contents, Entry.children, lookup]
+    obtain ⟨r0, h0, h0o, h0s, h0x⟩ := step1
+    -- Step 2: the children.
+    let f : Name → Plan := fun n =>
+      reconcile mode (path ++ [n]) (lookup n (contents anc')) (lookup n (contents (some ae)))
+        (lookup n (contents beta))
+    have hch := anc_children path f (contents anc')
+      (nameUnion [contents anc', contents (some ae), contents beta]) (nodup_nameUnion _)
+      (fun n _ p hp => reconcile_changePaths_under mode (path ++ [n]) _ _ _ p hp)
+      (fun n hn r hs hxn => by
+        have := ih ⟨n, hn⟩ r (Or.inr (by simpa using hs)) (fun q => by simpa using hxn q)
+        exact this)
+      r0 h0s (fun n _ q => h0x n q)
+    obtain ⟨r', h1, h1o, h1p⟩ := hch
+    have hanc : (here ++ Plan.concat
+        ((nameUnion [contents anc', contents (some ae), contents beta]).attach.map fun n =>
+          reconcile mode (path ++ [n.1]) (lookup n.1 (contents anc')) (lookup n.1 (contents (some ae)))
+            (lookup n.1 (contents beta)))).anc =
+        here.anc ++ (nameUnion [contents anc', contents (some ae), contents beta]).flatMap
+          (fun n => (f n).anc) := by
+      simp only [Plan.append_anc, Plan.concat_anc, List.flatMap_map]
+      congr 1
+      exact flatMap_attach_val _ (fun n => (f n).anc)
+    refine ⟨r', ?_, ?_, ?_⟩
+    · rw [hanc, apply_append, h0]; exact h1
+    · intro q hq
+      rw [h1o q (fun n _ => not_prefix_of_not_prefix n hq), h0o q hq]
+    · intro p hp
+      have hh1 : here.alpha = [] := by simp only [here]; split <;> rfl
+      have hh2 : here.beta = [] := by simp only [here]; split <;> rfl
+      simp only [Plan.changePaths, Plan.append_alpha, Plan.append_beta, hh1, hh2, List.nil_append,
+        Plan.concat_alpha, Plan.concat_beta, List.flatMap_map, List.mem_append, List.mem_map,
+        List.mem_flatMap, List.mem_attach, true_and] at hp
+      rcases hp with ⟨c, ⟨n, hc⟩, rfl⟩ | ⟨c, ⟨n, hc⟩, rfl⟩
+      · exact h1p n.1 n.2 c.path (by simp only [Plan.changePaths, List.mem_append, List.mem_map]; exact Or.inl ⟨c, hc, rfl⟩)
+      · exact h1p n.1 n.2 c.path (by simp only [Plan.changePaths, List.mem_append, List.mem_map]; exact Or.inr ⟨c, hc, rfl⟩)
+  | case6 path ancestor alpha beta h1 h2 h3 h4 =>
+    intro r hpar _
+    have hcp := handleDisagreement_changePaths mode path ancestor alpha beta
+    rcases handleDisagreement_anc mode path ancestor alpha beta with h | h
+    · rw [h]
+      exact ⟨r, rfl, fun _ _ => rfl, fun p hp => by rw [hcp p hp]; exact hpar⟩
+    · rw [h]
+      obtain ⟨r', h1, h2⟩ := apply_delete_spec r path hpar
+      refine ⟨r', h1, h2, fun p hp => ?_⟩
+      rw [hcp p hp]
+      by_cases hnil : path = []
+      · exact Or.inl hnil
+      · rcases hpar with hp0 | hp0
+        · exact absurd hp0 hnil
+        · right
+          have : ¬ path <+: path.dropLast := by
+            intro hpre
+            have hl1 := hpre.length_le
+            have hl2 : path.dropLast.length = path.length - 1 := List.length_dropLast
+            have hl3 : 0 < path.length := List.length_pos_iff.mpr hnil
+            omega
+          rw [h2 _ this]; exact hp0
+
+
+/-- The controller's ancestor update always resolves every path: for every
+mode, all trees and *every* family of reported result entries,
+`Apply(ancestor, ancestorChanges ++ αResults ++ βResults)` succeeds. -/
+theorem ancestor_update_succeeds (mode : Mode) (A alpha beta : Option Entry) (resα resβ : List Change)
+    (hα : resα.map (·.path) = (Reconcile A alpha beta mode).alpha.map (·.path))
+    (hβ : resβ.map (·.path) = (Reconcile A alpha beta mode).beta.map (·.path)) :
+    ∃ A', apply A ((Reconcile A alpha beta mode).anc ++ (resα ++ resβ)) = .ok A' := by
+  obtain ⟨r1, h1, _, h1p⟩ := reconcile_anc_spec mode [] A alpha beta A (Or.inl rfl) (fun q => rfl)
+  have hpaths : (resα ++ resβ).map (·.path) = (Reconcile A alpha beta mode).changePaths := by
+    simp [Plan.changePaths, hα, hβ]
+  have hinc : List.Pairwise (fun a b : Change => incomparable a.path b.path) (resα ++ resβ) := by
+    have := (reconcile_actions mode [] A alpha beta).2.sublist
+      (Plan.changePaths_sublist (Reconcile A alpha beta mode))
+    rw [← hpaths] at this
+    exact List.pairwise_map.mp this
+  obtain ⟨A', h2⟩ := apply_incomparable_ok (resα ++ resβ) r1 hinc (fun c hc =>
+    h1p c.path (by
+      have : c.path ∈ (Reconcile A alpha beta mode).changePaths := by
+        rw [← hpaths]; exact List.mem_map.mpr ⟨c, hc, rfl⟩
+      exact this))
+  refine ⟨A', ?_⟩
+  rw [apply_append]
+  have : apply A (Reconcile A alpha beta mode).anc = .ok r1 := h1
+  rw [this]
+  exact h2
+
 end Mutagen.Model
